@@ -108,7 +108,7 @@ func (fr *Frame) call(ins ssa.Instruction, cc *ssa.CallCommon, reach string, h H
 	u := fr.u
 	var args []Val
 	for _, a := range cc.Args {
-		if _, isLV := fr.lvs[a]; isLV {
+		if lv, isLV := fr.lvs[a]; isLV && !(lv.kind == lvElem && u.interior(lv.ty)) {
 			// interior pointer passed to a call
 			u.unsupportedAt(reach, "interior pointer passed to call "+cc.String())
 			args = append(args, Val{T: "0", Ty: a.Type(), S: "Int"})
@@ -312,6 +312,11 @@ func (e *Engine) inRepo(fn *ssa.Function) bool {
 func (fr *Frame) callStatic(callee *ssa.Function, cc *ssa.CallCommon, args []Val, reach string, h Heap) []Val {
 	u := fr.u
 	key := callee.String()
+	if callee.Name() == "init" && callee.Synthetic != "" {
+		// initialisation of an imported package: no effect on this package's state
+		u.assumed["package initialisers of imported packages do not touch this repository's package variables"] = true
+		return nil
+	}
 	ct := u.eng.lib.Contracts[key]
 	if ct != nil && !ct.Inline {
 		return fr.callByContract(ct, callee, cc.Signature(), args, reach, h, key, false)
@@ -462,6 +467,7 @@ func (fr *Frame) callByContract(ct *Contract, callee *ssa.Function, sig *types.S
 	ens := ct.Ensures
 	if ct.Mode == "bv" && !u.so.bv {
 		ens = ct.Exports
+		u.bvCallees[key] = true
 		u.assumed["int-mode export of bv-mode contract "+shortKey(key)+" (justified by the C14 bridge lemmas)"] = true
 	}
 	for _, en := range ens {
